@@ -1802,6 +1802,9 @@ mod crypto {
                                 assert!(sizebuf_bytes_read <= 8);
                             }
                         }
+                        // Returning here would lose the part of the length prefix that has
+                        // already been read: the caller retries an interrupted read.
+                        Err(ref err) if err.kind() == ErrorKind::Interrupted => continue,
                         Err(err) => return Err(err),
                     }
                     if sizebuf_bytes_read == 8 {
